@@ -359,13 +359,13 @@ end column
 omit [IsStrictOrderedRing α] [LawfulFloor α] in
 @[simp] theorem quantize_bucket (N rows cols : Nat) (ed : Bool) (x : Nat → Nat → α) (c : Nat) :
     (quantize N rows cols ed x).bucket c = bucketSize N (column rows (pre ed x) c) := by
-  simp only [quantize, memo_eq]
+  simp only [quantize, lookup_table]
 
 omit [IsStrictOrderedRing α] [LawfulFloor α] in
 @[simp] theorem quantize_q (N rows cols : Nat) (ed : Bool) (x : Nat → Nat → α) (i c : Nat) :
     (quantize N rows cols ed x).q i c
       = quantEntry (bucketSize N (column rows (pre ed x) c)) (pre ed x i c) := by
-  simp only [quantize, memo_eq]
+  simp only [quantize, lookup_table]
 
 omit [IsStrictOrderedRing α] [LawfulFloor α] in
 @[simp] theorem quantize_diag (N rows cols : Nat) (ed : Bool) (x : Nat → Nat → α) (i : Nat) :
